@@ -406,3 +406,27 @@ func c12Expiry(c *Ctx, rule string) {
 	}
 	c.check(good && n > 0, rule, "(*TCPClientTransport).IsExpired/by-age-only", w.pos(f.Pos()), "expired exactly when an expiry time is set and has passed", "TCPClientTransport.IsExpired can answer true without an expiry time that is set and has passed (e.g. for a transport whose connection is not open yet): the periodic sweep drops the table entry of a transaction that is still pending, and its response no longer returns on the connection the request used")
 }
+
+// c12StampBeforeKey: in handleRawMessage the received/rport stamp is applied before the response hop of the request is
+// computed for the connection registration: the hop the connection is registered under must be the hop the response
+// will be looked up under (shared with C07: over TCP the "true source" is that connection).
+func c12StampBeforeKey(c *Ctx, rule string) {
+	w := c.w
+	f := c.fn(rule, "(*Proxy).handleRawMessage")
+	if f == nil {
+		return
+	}
+	var hops []ssa.CallInstruction
+	for _, cs := range w.callsIn(f, hopRespFn) {
+		hops = append(hops, cs.In)
+	}
+	good := len(hops) > 0
+	for _, sc := range w.callsIn(f, "(*Message).SetReceived") {
+		for _, hop := range hops {
+			if canReach(at(hop), nil, isInstr(sc.In), nil) {
+				good = false
+			}
+		}
+	}
+	c.check(good, rule, "handleRawMessage/stamp-before-key", w.pos(f.Pos()), "received/rport are stamped before the registration key is computed", "the received/rport stamp is applied after the response hop was computed for registering the inbound connection: the connection is filed under what the sender wrote, the response is looked up under the stamped source, misses it, and is dialled to the sender's ephemeral port")
+}
